@@ -110,6 +110,7 @@ func (s *Scheduler) Schedule(g *scheduler.ExecutionGraph) error {
 			}(stage)
 		}
 
+		s.verifIdle(g)
 		time.Sleep(s.pause)
 	}
 
